@@ -265,6 +265,26 @@ Definition holds_C10 (reg : list (name * (name * Z))) (p o : obs) (m : msg) : Z 
             end
         end
       else if same_state p o then 0 else 3
+  | HookToNative c from to amt =>
+      if o_code o =? 0 then
+        match get c (o_contracts p) with
+        | None => 2
+        | Some sym =>
+            match otoken p sym with
+            | None => 2
+            | Some t =>
+                let denom := t_minunit t in
+                first_code [ (t_contract t =? c, 2);
+                             (osupply o denom =? osupply p denom + amt, 2);
+                             (obal o to denom =? obal p to denom + amt, 2);
+                             (oerc20 o c from =? oerc20 p c from - amt, 2);
+                             (0 <=? oerc20 o c from, 2);
+                             (oerc20_total o c =? oerc20_total p c - amt, 2);
+                             (others_unchanged_bal p o to denom && others_unchanged_supply p o denom
+                              && others_unchanged_erc20 p o c from, 2) ]
+            end
+        end
+      else if same_state p o then 0 else 3
   | _ => if (o_code o =? 0) || same_state p o then 0 else 3
   end.
 
